@@ -501,3 +501,21 @@ def centroid_tables(rep, F):
     rects = [(a, b) for a in grid for b in grid if a[0] <= b[0] and a[1] <= b[1]]
     table("Rect", "rect::Rect", ("adt", GT + "rect::Rect", "Rect", (C(0), C(1))), rects, lambda cs: ((cs[0][0] + cs[1][0]) / 2, (cs[0][1] + cs[1][1]) / 2), env)
     rep.floor("R6.9", "centroid tables", n_ok, 12)
+    # R6.13: a triangle that is NOT collinear (exact determinant 1) but whose area vanishes in doubles: the centroid is still a finite point of its
+    # bounding box (the polygon form falls back to the outline, `a polygon of zero area falls back to the centroid of its outline`)
+    rep.rule("R6.13", "Triangle::centroid of a numerically flat but not collinear triangle ((0,0), (3,4), (2^51+3, 3002399751580335)): a finite point within the bounding box, as for its polygon form - not 0/0")
+    try:
+        fn = F.impl_method(CT, r"^%striangle::Triangle<T>$" % GT, None, "centroid", crates=("geo",))
+        ex = Symex(F, concrete_iters=True, loop_bound=10, inline_crates=("geo", "geo_types"), max_depth=16, max_paths=20000, budget_s=60)
+        paths = [p for p in ex.run(fn, args=[("&", ("adt", GT + "triangle::Triangle", "Triangle", (C(0), C(1), C(2))))]) if p.kind != "cut"]
+        cs = [(0.0, 0.0), (3.0, 4.0), (float(2 ** 51 + 3), 3002399751580335.0)]
+        ev = NumEval(F, env(cs))
+        hit = ev.select_path(paths)
+        got = dec(ev.ev(hit[0].ret)) if len(hit) == 1 and hit[0].kind == "ret" else None
+        ok = got is not None and all(math.isfinite(v) for v in got) and 0.0 <= got[0] <= cs[2][0] and 0.0 <= got[1] <= cs[2][1]
+        if ok:
+            rep.ok("R6.13", "thin-triangle", sample=got)
+        else:
+            rep.bad("R6.13", "thin-triangle", "centroid(Triangle %s) = %s: the triangle is not collinear (exact determinant 1) but its area is 0 in doubles, and the area-weighted mean divides 0 by 0" % (cs, got), where=fn.loc())
+    except (KeyError, Unanalysable, NoModel, TypeError, ValueError, ZeroDivisionError) as e:
+        rep.bad("R6.13", "thin-triangle:unanalysable", str(e))
